@@ -88,6 +88,51 @@ def match_tree(eroots, proots):
     return errs, mapping
 
 
+def alloc_rows(beh, sim, s):
+    """Expected allocation rows of one benchmark: per row the set of acceptable values under fastest / slowest / median / mean.
+    Every call (or, with `ar`, every call whose ordinal j has j % mod == ar) allocates n blocks of z bytes that are live
+    together, optionally grows the first by rg bytes and shrinks it back, then frees them. Under fastest / slowest / median
+    stand the figures of the sample(s) that supplied the time (any of several tied ones), under mean the totals over all
+    samples and iterations."""
+    n, z, rg = min(beh.get("an", 0), 8), max(beh.get("az", 0), 1), beh.get("rg", 0)
+    mod, ar = beh.get("mod", 1), beh.get("ar")
+    durs, j0s = sim["samples"], sim.get("sample_j0") or [0] * len(sim["samples"])
+    m = len(durs)
+    figs = []
+    for j0 in j0s:
+        a = s if ar is None else sum(1 for j in range(j0, j0 + s) if j % mod == ar)
+        live = 1 if a else 0
+        # (max count, max bytes, alloc count, alloc bytes, grow count, grow bytes), totals of the sample
+        figs.append((n * live, (n * z + rg) * live, n * a, n * z * a, (a if rg else 0), rg * a))
+    if not any(f[2] for f in figs):
+        return []
+    srt = sorted(durs)
+    per_iter = lambda f: tuple(x / s for x in f)
+    fastest = {per_iter(figs[i]) for i in range(m) if durs[i] == srt[0]}
+    slowest = {per_iter(figs[i]) for i in range(m) if durs[i] == srt[-1]}
+    if m % 2:
+        median = {per_iter(figs[i]) for i in range(m) if durs[i] == srt[m // 2]}
+    else:
+        lo = {}
+        hi = {}
+        for i in range(m):
+            if durs[i] == srt[m // 2 - 1]:
+                lo.setdefault(per_iter(figs[i]), set()).add(i)
+            if durs[i] == srt[m // 2]:
+                hi.setdefault(per_iter(figs[i]), set()).add(i)
+        median = {tuple((x + y) / 2 for x, y in zip(fa, fb)) for fa, ia in lo.items() for fb, ib in hi.items() if len(ia | ib) >= 2}
+    mean = {tuple(sum(f[k] for f in figs) / (m * s) for k in range(6))}
+    cols = [fastest, slowest, median, mean]
+    pick = lambda k: [sorted({f[k] for f in c}) for c in cols]
+    rows = [("label", "max alloc:"), ("plain", pick(0)), ("bytes", pick(1)),
+            ("label", "alloc:"), ("plain", pick(2)), ("bytes", pick(3)),
+            ("label", "dealloc:"), ("plain", pick(2)), ("bytes", pick(3))]
+    if rg:
+        rows += [("label", "grow:"), ("plain", pick(4)), ("bytes", pick(5)),
+                 ("label", "shrink:"), ("plain", pick(4)), ("bytes", pick(5))]
+    return rows
+
+
 def printed_cases(proots, action):
     """Leaf rows in printed order."""
     out = []
@@ -255,16 +300,7 @@ def judge(sp, cfg, res, want=None):
                 beh = case_beh(ex)
                 an, az = beh.get("an", 0), beh.get("az", 0)
                 if an and nsamp and sim.get("mode") != 3:
-                    n = min(an, 8)
-                    z = max(az, 1)
-                    rg = beh.get("rg", 0)
-                    # all blocks live at once; optionally the first block grows by rg bytes and shrinks back
-                    exp_rows += [("label", "max alloc:"), ("plain", n / s), ("bytes", (n * z + rg) / s),
-                                 ("label", "alloc:"), ("plain", float(n)), ("bytes", float(n * z)),
-                                 ("label", "dealloc:"), ("plain", float(n)), ("bytes", float(n * z))]
-                    if rg:
-                        exp_rows += [("label", "grow:"), ("plain", 1.0), ("bytes", float(rg)),
-                                     ("label", "shrink:"), ("plain", 1.0), ("bytes", float(rg))]
+                    exp_rows += alloc_rows(beh, sim, s)
                 # which counter kinds have a throughput row (by unit suffix) vs. the kinds that are in force
                 def kind_of(cell):
                     for kk, suf in ((1, "char/s"), (3, "item/s"), (2, "Hz"), (0, "B/s")):
@@ -299,15 +335,15 @@ def judge(sp, cfg, res, want=None):
                                     break
                         elif er[0] == "plain":
                             for col in range(4):
-                                err = models.check_plain(row[col], er[1])
-                                if err:
-                                    add("C20", "alloc_count_cell", "%s: %s" % (where, err))
+                                errs_ = [models.check_plain(row[col], v) for v in er[1][col]]
+                                if all(errs_):
+                                    add("C20", "alloc_count_cell", "%s: column %s: %s" % (where, HEADINGS[col], errs_[0]))
                                     break
                         else:
                             for col in range(4):
-                                err = models.check_bytes(row[col], er[1], it.binary)
-                                if err:
-                                    add("C20", "alloc_bytes_cell", "%s: %s" % (where, err))
+                                errs_ = [models.check_bytes(row[col], v, it.binary) for v in er[1][col]]
+                                if all(errs_):
+                                    add("C20", "alloc_bytes_cell", "%s: column %s: %s" % (where, HEADINGS[col], errs_[0]))
                                     break
 
     # ---- thread branches (C15) ------------------------------------------------------------
